@@ -128,11 +128,14 @@ def build(chk):
             sos_m = [[11], [11, 11], [98]][P.choose(3)] if focus == 'hints' else [11]
             sos_v = [[2], [2, 2], [9]][P.choose(3)] if focus == 'hints' else [2]
             hints_present = P.choose(2) if focus == 'hints' else 1
+            # 'hints': the two constraints are active, or both have been relaxed (then no hint can refer to an active constraint)
+            no_active = (P.choose(2) == 1) if focus == 'hints' else False
             obj = lin_ids(chk, [uid('objective', 1)]) if obj_set else (chk.M.function(), SymFn([]))
             spec = Inst(sense=sense, objective=obj if obj_present else None,
                         vars=[Var(vids[0], kinds[0], bound0, name='x'), Var(vids[1], kinds[1], None, sub=P.real('sub'))],
-                        cons=[Con(cids[0], eqs[0], lin_ids(chk, [uid('constraint', 2)]) if cfn_present else None, name='c0', subscripts=[4]), Con(cids[1], eqs[1], lin_ids(chk, [1]))],
-                        removed=[Rem(Con(rid, EQ, lin_ids(chk, [uid('removed', 1)])) if rem_con_present else None, reason='rr', params=[('a', 'b')])],
+                        cons=[] if no_active else [Con(cids[0], eqs[0], lin_ids(chk, [uid('constraint', 2)]) if cfn_present else None, name='c0', subscripts=[4]), Con(cids[1], eqs[1], lin_ids(chk, [1]))],
+                        removed=[Rem(Con(rid, EQ, lin_ids(chk, [uid('removed', 1)])) if rem_con_present else None, reason='rr', params=[('a', 'b')])] +
+                        ([Rem(Con(cids[0], eqs[0], lin_ids(chk, [2]), name='c0'), reason='relaxed'), Rem(Con(cids[1], eqs[1], lin_ids(chk, [1])), reason='relaxed')] if no_active else []),
                         deps=[(dep_id, lin_ids(chk, [uid('dependency', 1)]))],
                         hints=eng.struct('v1::ConstraintHints', one_hot_constraints=RVec([eng.struct('v1::OneHot', constraint_id=oh_c, decision_variables=RVec(list(oh_v)))]),
                                          sos1_constraints=RVec([eng.struct('v1::Sos1', binary_constraint_id=sos_b, big_m_constraint_ids=RVec(list(sos_m)),
@@ -152,7 +155,8 @@ def build(chk):
             conds += [len(set(vids)) == 2, bool(obj_present), bool(obj_set), bool(cfn_present), bool(rem_con_present),
                       len(set(cids)) == 2, rid not in cids, dep_id in vids, undef_at is None]
             if hints_present:
-                conds += [oh_c in cids, len(set(oh_v)) == len(oh_v), set(oh_v) <= set(vids), sos_b in cids, len(set(sos_m)) == len(sos_m), set(sos_m) <= set(cids),
+                active = [] if no_active else cids
+                conds += [oh_c in active, len(set(oh_v)) == len(oh_v), set(oh_v) <= set(vids), sos_b in active, len(set(sos_m)) == len(sos_m), set(sos_m) <= set(active),
                           len(set(sos_v)) == len(sos_v), set(sos_v) <= set(vids)]
             well = b_and(*conds)
 
